@@ -252,6 +252,30 @@ func c14different(g *docgen, c c14case) []c14case {
 		m.l = append(m.l, dStr("added-value"))
 		return true
 	})
+	// a plugin's config replaced by a different "zero-looking" config: null, false, 0, "" are all different contents
+	for _, alt := range []*dv{dNull(), dBool(false), dInt(0), dStr(""), dBool(true)} {
+		alt := alt
+		add(func(n *c14case) bool {
+			p := n.doc.get("plugins")
+			if p == nil || p.kind != 'l' || len(p.l) == 0 || p.l[0].kind != 'm' || len(p.l[0].m) != 1 {
+				return false
+			}
+			cur := p.l[0].m[0].v
+			norm := func(d *dv) string { // configs that the normal form identifies: null, {} and []
+				if d.kind == 'n' || d.kind == 'm' && len(d.m) == 0 || d.kind == 'l' && len(d.l) == 0 {
+					return "null"
+				}
+				var b bytes.Buffer
+				d.jsonText(&b)
+				return b.String()
+			}
+			if norm(cur) == norm(alt) {
+				return false
+			}
+			p.l[0].m[0].v = alt
+			return true
+		})
+	}
 	return out
 }
 
@@ -279,7 +303,9 @@ func init() {
 		for i := 0; i < n; i++ {
 			g := newDocgen(rng, false)
 			g.strPool = append([]string{}, defaultStrPool...)
-			c := c14case{doc: g.signableStep(), penv: g.pipelineEnv(), repo: sx.Pick(rng, []string{"git@github.com:o/r.git", "https://example.org/r", "", "repo"})}
+			penv := g.pipelineEnv()
+			g.penvNames = sortedKeys(penv)
+			c := c14case{doc: g.signableStep(), penv: penv, repo: sx.Pick(rng, []string{"git@github.com:o/r.git", "https://example.org/r", "", "repo"})}
 			key := keys[i%len(keys)]
 			base, cs, bad := c14payload(c, key)
 			if bad != "" {
